@@ -185,7 +185,7 @@ def gen_plan(rng, tier, idx):
                {"cls": "AllenCahnPDE"}, {"cls": "CahnHilliardPDE"},
                {"cls": "WavePDE", "speed": rng.choice([1, 2])},
                {"cls": "PDE", "rhs": {"c": "laplace(c) - c + integral(c)"}},
-               {"cls": "PDE", "rhs": {"u": "laplace(v)", "v": "laplace(u) - u"}},
+               {"cls": "PDE", "rhs": [["u", "laplace(c)"], ["c", "laplace(u) - u"]]},  # (a list: names not in alphabetical order)
                {"cls": "PDE", "rhs": {"w": "vector_laplace(w)"}, "vector": True}]
         eq = rng.choice(eqs)
         if eq.get("vector") and cls == "SphericalSymGrid":
